@@ -15,6 +15,9 @@ structure Verdict where
   oracle : Option String := none
   /-- `some why` when the op line itself could not be understood -/
   bad    : Option String := none
+  /-- `some model` when a *part* of the implementation's result disagrees with the model (counted and
+  reported like a whole-line model disagreement) -/
+  mismatch : Option String := none
 
 def Verdict.ofModel (m : String) : Verdict := { model := some m }
 def badOp (why : String) : Verdict := { bad := some why }
